@@ -421,12 +421,20 @@ func (w *baWorld) load() error {
 	return nil
 }
 
+// baUniform draws 0..n-1 without rapid's preference for small values (which would starve the later scripts and the
+// larger suffrages): the biased draw is scattered by a multiplicative hash. 0 still shrinks to 0.
+func baUniform(t *rapid.T, label string, n int) int {
+	x := uint64(rapid.IntRange(0, 1<<20).Draw(t, label))
+
+	return int(((x * 0x9E3779B97F4A7C15) >> 33) % uint64(n))
+}
+
 func baGenScenario(t *rapid.T) baScenario {
 	return baScenario{
-		N:      rapid.IntRange(1, 7).Draw(t, "n"),
+		N:      1 + baUniform(t, "n-1", 7),
 		Th:     rapid.SampledFrom([]base.Threshold{67, 67, 51, 60, 75, 100, 66.7}).Draw(t, "threshold"),
 		Life:   base.Height(rapid.IntRange(1, 3).Draw(t, "lifespan")),
-		Script: rapid.SampledFrom(baScriptNames).Draw(t, "script"),
+		Script: baScriptNames[baUniform(t, "script", len(baScriptNames))],
 	}
 }
 
